@@ -650,17 +650,19 @@ def shrink_candidates(e):
             yield dict(e, sub=e['sub'][:i] + [c] + e['sub'][i + 1:])
 
 
-def shrink(case, fails, budget=400):
+def shrink(case, fails, budget=400, seconds=60):
+    import time
+    t0 = time.time()
     try:
         e = parse_case(case)
     except Exception:
         return case
     improved = True
-    while improved and budget > 0:
+    while improved and budget > 0 and time.time() - t0 < seconds:
         improved = False
         for c in shrink_candidates(e):
             budget -= 1
-            if budget <= 0:
+            if budget <= 0 or time.time() - t0 > seconds:
                 break
             s = unparse(c)
             try:
@@ -1017,7 +1019,7 @@ def run(ctx):
             model_broken = str(e)
             ctx.notes.append('model does not build against the regenerated Generated.v: ' + model_broken[-600:])
     h = ctx.build_harness('iter_walk.c', whitebox='Table')
-    henv = dict(os.environ, H_TIMEOUT='4')          # a case takes microseconds; a hang is an observation (TIMEOUT)
+    henv = dict(os.environ, H_TIMEOUT='2')          # a case takes microseconds; a hang is an observation (TIMEOUT)
     stats = {'forked': 0, 'inprocess': 0}
 
     def hybrid(exe, env):
@@ -1027,7 +1029,13 @@ def run(ctx):
             out = []
             for i in range(0, len(cs), 1000):
                 chunk = cs[i:i + 1000]
-                rc, lines, err = ctx.run_lines(exe, chunk, env=dict(env, H_NOFORK='1'), timeout=60)
+                # one plain process for the chunk (not run_lines: its stall handling would retry a hanging in-process run);
+                # a handful of cases (shrinking, replay) go straight to the forked mode
+                rc, o, err = vlib.sh([exe], input='\n'.join(chunk) + '\n', timeout=25, env=dict(env, H_NOFORK='1')) \
+                    if len(chunk) > 8 else (1, '', '')
+                lines = o.split('\n')
+                if lines and lines[-1] == '':
+                    lines.pop()
                 if rc != 0 or len(lines) != len(chunk) or any(l.startswith('HARNESS-') for l in lines):
                     rc, lines, err = ctx.run_lines(exe, chunk, env=env, timeout=3000)
                     stats['forked'] += len(chunk)
